@@ -59,17 +59,19 @@ type Task struct {
 	state TaskState
 	goid  uint64
 
-	spin      int   // scheduling points since the task last blocked
-	idleOnly  bool  // while awaiting quiescence: nothing but ticker firings have been pending since idleFrom
-	idleTicks int   // ticker-only clock jumps since then
-	idleFrom  int64 // ... and the virtual time at which it began
-	blockWhat string
-	blockObj  any
-	pcs       [10]uintptr
-	npcs      int
-	createPCs [6]uintptr
-	ncreate   int
-	prio      int
+	spin       int   // scheduling points since the task last blocked
+	idleJumped bool  // the clock has been moved ten minutes past idleFrom
+	idleOnly   bool  // while awaiting quiescence: nothing but ticker firings have been pending since idleFrom
+	idleTicks  int   // ticker-only clock jumps since then
+	idleFrom   int64 // ... and the virtual time at which it began
+	blockWhat  string
+	blockObj   any
+	pcs        [10]uintptr
+	npcs       int
+	createPCs  [6]uintptr
+	ncreate    int
+	spawnedAt  int64
+	prio       int
 
 	Panic      any
 	PanicStack string
@@ -175,7 +177,8 @@ type TaskInfo struct {
 	What    string
 	Where   string
 	Created string
-	Spin    int // scheduling points passed since the task last blocked
+	Spin    int           // scheduling points passed since the task last blocked
+	Spawned time.Duration // virtual time at which the task was started
 }
 
 type PanicInfo struct {
@@ -300,6 +303,7 @@ func (s *Sim) spawn(name, kind string, fn func()) *Task {
 		t.Parent = s.cur.ID
 	}
 	t.ncreate = runtime.Callers(3, t.createPCs[:])
+	t.spawnedAt = s.now
 	if s.policy == PolPCT {
 		t.prio = 1000 + s.Sched.Draw(1<<16)
 	}
@@ -621,7 +625,10 @@ func (s *Sim) loop() {
 					q.idleOnly, q.idleTicks, q.idleFrom = true, 0, s.now
 				}
 				switch {
-				case q != nil && (q.idleTicks >= 3 && s.now-q.idleFrom >= int64(10*time.Minute) || q.idleTicks >= 2000):
+				case q != nil && q.idleTicks >= 3 && s.now-q.idleFrom >= int64(10*time.Minute):
+					// (every firing of those ten minutes has been simulated: periodic work
+					// that is driven by the ticker, a sweep over a table for instance, has
+					// seen every instant it would have seen)
 					q.state = StRunnable
 					s.unlock()
 					continue
@@ -671,6 +678,15 @@ func (s *Sim) loop() {
 			return
 		}
 		pick := s.choose(run, ev)
+		if pick == nil && ev.periodic {
+			// ticking while a task awaits quiescence is not charged to the step budget
+			for _, t := range s.tasks {
+				if t.state == StQuiesce && t.idleOnly {
+					s.steps--
+					break
+				}
+			}
+		}
 		if pick == nil {
 			s.popEvent(ev)
 			s.mix(uint64(s.steps), 1<<40|ev.seq, uint64(s.now))
@@ -771,7 +787,7 @@ func (s *Sim) info(t *Task) TaskInfo {
 		}
 	}
 	return TaskInfo{ID: t.ID, Name: t.Name, Kind: t.Kind, State: t.state.String(), What: what,
-		Where: s.where(t), Created: frames(t.createPCs[:t.ncreate]), Spin: t.spin}
+		Where: s.where(t), Created: frames(t.createPCs[:t.ncreate]), Spin: t.spin, Spawned: time.Duration(t.spawnedAt)}
 }
 
 //go:norace
@@ -941,3 +957,18 @@ func SortedKeys[V any](m map[string]V) []string {
 //
 //go:norace
 func S_spawn(fn func()) { S.spawn("event-task", "harness", fn) }
+
+// Process-lifetime state of the code under test (see the instrumenter): every
+// instrumented package registers a function that puts its package-level
+// variables back to the values they had after the package's initialisation.
+var reinits []func()
+
+func RegisterReinit(f func()) { reinits = append(reinits, f) }
+
+// ReinitAll is called by the harness before every run: each run starts in a
+// "fresh process" as far as package-level variables go.
+func ReinitAll() {
+	for _, f := range reinits {
+		f()
+	}
+}
